@@ -254,7 +254,7 @@ fn gen_req_case(rng: &mut Rng, corpus: &Corpus) -> ReqCase {
     // long runs of one value with a long mantissa: more metrics over the buckets of that field
     let wide_runs = !corpus.wide_run_fields().is_empty()
         || (corpus.docs.len() >= 30 && !corpus.absent_numeric_fields().is_empty());
-    let r = g.rng.weighted(&[50, 10, 7, 3, 3, 10, if wide_runs { 30 } else { 8 }, 6, if multi_flush { 45 } else { 5 }]);
+    let r = g.rng.weighted(&[50, 10, 7, 3, 3, 10, if wide_runs { 30 } else { 8 }, 6, if multi_flush { 60 } else { 5 }]);
     match r {
         0 => ReqCase::plain(g.gen_request(), Probe::None),
         1 => ReqCase::plain(vec![g.gen_terms_approx()], Probe::None),
@@ -901,7 +901,7 @@ fn main() {
          a range with buckets no document falls into x one sub aggregation of a uniformly chosen kind; any bucket \
          aggregation x one sub aggregation of a uniformly chosen kind. In quick every 10th corpus (thorough: one in \
          27) has 2048 k + 1..48 documents, so that one-segment partitions feed their sub aggregations by a full \
-         flush followed by a short one; there half of the requests are of the last shape. evaluations = (corpus, request, partition) triples, each \
+         flush followed by a short one; there a third of the requests are of the last shape. evaluations = (corpus, request, partition) triples, each \
          compared with a naive evaluator over the model documents. non-trivial = the result has >= 2 buckets or >= 2 \
          segments/indexes were merged; distinct = distinct (request kind+field tree, partition shape, query is-all) keys.",
         ctx.scale(400, 5000),
